@@ -1,1 +1,238 @@
-(* placeholder: proofs are being written *)
+(* Proofs for C10: charge only rescales m/z. *)
+From Coq Require Import ZArith List Bool Lia Field Ring Field_theory Ring_theory.
+From CE Require Import Num OField Mz Peak Poisson Conv Brain PoissonProofs NumQc OFieldQc.
+Import ListNotations.
+
+Section ChargeProofs.
+  Context {F : Type} (N : Num F).
+
+  Notation peakF := (peak (F:=F)).
+
+  (* re-labelling the m/z of a peak, intensities untouched *)
+  Definition remz (g : F -> F) (p : peakF) : peakF := mkPeak (g (mz p)) (inten p).
+
+  Lemma charged_zero : forall m carrier, charged N m 0 carrier = m.
+  Proof. intros m carrier. reflexivity. Qed.
+
+  Lemma charged_nonzero m z carrier : z <> 0%Z -> charged N m z carrier = mass_charge_ratio N m z carrier.
+  Proof.
+    intros Hz. unfold charged. destruct (Z.eqb_spec z 0) as [E|_]; [contradiction|reflexivity].
+  Qed.
+
+  (* ---------- Poisson ---------- *)
+  Lemma poisson_charge : forall mass n z lf,
+    poisson_approximation_impl N mass n z lf
+    = map (fun p => mkPeak (charged N (mz p) z (PROTON N)) (inten p)) (poisson_approximation_impl N mass n 0 lf).
+  Proof.
+    intros mass [|m] z lf; [reflexivity|].
+    rewrite !pa_unfold. rewrite map_map. apply map_ext.
+    intros [i x]. reflexivity.
+  Qed.
+
+  (* ---------- convolution ---------- *)
+  Lemma map_inten_remz g (l : list peakF) : map inten (map (remz g) l) = map inten l.
+  Proof. rewrite map_map. apply map_ext. intros q. reflexivity. Qed.
+
+  Lemma filter_remz g (f : F -> bool) : forall l : list peakF,
+    filter (fun q => f (inten q)) (map (remz g) l) = map (remz g) (filter (fun q => f (inten q)) l).
+  Proof.
+    induction l as [|q l IH]; [reflexivity|].
+    cbn [map filter]. change (inten (remz g q)) with (inten q).
+    destruct (f (inten q)); cbn [map]; rewrite IH; reflexivity.
+  Qed.
+
+  Lemma peaks_normalize (l : list peakF) o :
+    peaks (normalize N (mkTip l o))
+    = map (fun q => mkPeak (mz q) (mul N (inten q) (div N (one N) (fsum N (map inten l))))) l.
+  Proof. reflexivity. Qed.
+
+  Lemma peaks_normalize_remz g (l : list peakF) o o' :
+    peaks (normalize N (mkTip (map (remz g) l) o)) = map (remz g) (peaks (normalize N (mkTip l o'))).
+  Proof.
+    rewrite !peaks_normalize. rewrite map_inten_remz. rewrite !map_map.
+    apply map_ext. intros q. reflexivity.
+  Qed.
+
+  Lemma peaks_ignore_below (p : tip (F:=F)) t :
+    peaks (ignore_below N p t)
+    = peaks (normalize N (mkTip (filter (fun q => geb N (inten q) t) (peaks p)) (origin p))).
+  Proof. reflexivity. Qed.
+
+  Lemma pipeline_remz g (l : list peakF) o o' thr :
+    peaks (ignore_below N (normalize N (mkTip (map (remz g) l) o)) thr)
+    = map (remz g) (peaks (ignore_below N (normalize N (mkTip l o')) thr)).
+  Proof.
+    rewrite !peaks_ignore_below.
+    rewrite (peaks_normalize_remz g l o o').
+    rewrite (filter_remz g (fun x => geb N x thr)).
+    apply peaks_normalize_remz.
+  Qed.
+
+  Lemma convolution_charge : forall c z carrier thr,
+    isotopic_convolution N c z carrier thr
+    = map (fun p => mkPeak (charged N (mz p) z carrier) (inten p)) (isotopic_convolution N c 0 carrier thr).
+  Proof.
+    intros c z carrier thr. unfold isotopic_convolution. cbv zeta.
+    set (sorted := sort_mass N (conv_all N c thr)).
+    set (pk0 := map (fun mi : F * F => mkPeak (charged N (fst mi) 0 carrier) (snd mi)) sorted).
+    assert (Hpk : map (fun mi : F * F => mkPeak (charged N (fst mi) z carrier) (snd mi)) sorted
+                  = map (remz (fun m => charged N m z carrier)) pk0).
+    { unfold pk0. rewrite map_map. apply map_ext. intros mi. reflexivity. }
+    rewrite Hpk.
+    apply (pipeline_remz (fun m => charged N m z carrier) pk0).
+  Qed.
+
+  (* ---------- the coarse generator: keep_real and the stable sort ---------- *)
+  Definition on_fst (g : F -> F) (mp : F * F) : F * F := (g (fst mp), snd mp).
+
+  Lemma keep_real_on_fst g : forall l b,
+    keep_real N (map (on_fst g) l) b = map (on_fst g) (keep_real N l b).
+  Proof.
+    induction l as [|[m p] l IH]; intros b; [reflexivity|].
+    cbn [map on_fst fst snd keep_real].
+    destruct (ltb N p (tiny10 N)).
+    - destruct b.
+      + apply IH.
+      + cbn [map on_fst fst snd]. rewrite IH. reflexivity.
+    - cbn [map on_fst fst snd]. rewrite IH. reflexivity.
+  Qed.
+
+  Lemma ins_mz_on_fst g :
+    (forall a b, ltb N (g a) (g b) = ltb N a b) ->
+    forall x l, ins_mz N (on_fst g x) (map (on_fst g) l) = map (on_fst g) (ins_mz N x l).
+  Proof.
+    intros Hg x. induction l as [|y l IH]; [reflexivity|].
+    cbn [map ins_mz]. change (fst (on_fst g x)) with (g (fst x)).
+    change (fst (on_fst g y)) with (g (fst y)). rewrite Hg.
+    destruct (ltb N (fst x) (fst y)); cbn [map]; [reflexivity|].
+    rewrite IH. reflexivity.
+  Qed.
+
+  Lemma sort_mz_on_fst g :
+    (forall a b, ltb N (g a) (g b) = ltb N a b) ->
+    forall l, sort_mz N (map (on_fst g) l) = map (on_fst g) (sort_mz N l).
+  Proof.
+    intros Hg l. unfold sort_mz.
+    change (@nil (F * F)) with (map (on_fst g) []) at 1.
+    generalize (@nil (F * F)) as acc.
+    induction l as [|x l IH]; intros acc; [reflexivity|].
+    cbn [map fold_left]. rewrite (ins_mz_on_fst g Hg). apply IH.
+  Qed.
+
+  Lemma finish_on_fst (g : F -> F) pv cv o z carrier :
+    (forall a b, ltb N (g a) (g b) = ltb N a b) ->
+    (forall m, charged N m z carrier = g m) ->
+    finish N pv cv o z carrier = map (on_fst g) (finish N pv cv o 0 carrier).
+  Proof.
+    intros Hg Hc. unfold finish. cbv zeta.
+    set (L := firstn (o + 1) (combine cv pv)).
+    assert (Hraw : map (fun cp : F * F => (charged N (fst cp) z carrier, div N (snd cp) (fsum N pv))) L
+                   = map (on_fst g)
+                       (map (fun cp : F * F => (charged N (fst cp) 0 carrier, div N (snd cp) (fsum N pv))) L)).
+    { rewrite map_map. apply map_ext. intros cp. unfold on_fst. cbn [fst snd]. rewrite Hc. reflexivity. }
+    rewrite Hraw. rewrite keep_real_on_fst. apply (sort_mz_on_fst g Hg).
+  Qed.
+
+  (* ================= exact arithmetic ================= *)
+  Section WithField.
+    Hypothesis OF : OField N.
+    Add Field Fc : (of_field N OF).
+
+    Local Notation "0" := (zero N).
+    Local Notation "1" := (one N).
+    Local Infix "+!" := (add N) (at level 50, left associativity).
+    Local Infix "*!" := (mul N) (at level 40, left associativity).
+    Local Infix "/!" := (div N) (at level 40, left associativity).
+    Local Infix "<=!" := (fle N) (at level 70).
+
+    Lemma abs_nonneg a : 0 <=! abs N a.
+    Proof.
+      rewrite (of_abs_def N OF). destruct (leb N 0 a) eqn:E; [exact E|].
+      apply (opp_nonneg N OF).
+      destruct (of_le_total N OF 0 a) as [H|H]; [unfold fle in H; congruence | exact H].
+    Qed.
+
+    Lemma mul_le_r x y c : x <=! y -> 0 <=! c -> x *! c <=! y *! c.
+    Proof.
+      intros Hxy Hc.
+      pose proof (of_add_le N OF x y (opp N x) Hxy) as H1.
+      replace (x +! opp N x) with 0 in H1 by ring.
+      pose proof (of_mul_nonneg N OF _ _ H1 Hc) as H2.
+      pose proof (of_add_le N OF _ _ (x *! c) H2) as H3.
+      replace (0 +! x *! c) with (x *! c) in H3 by ring.
+      replace ((y +! opp N x) *! c +! x *! c) with (y *! c) in H3 by ring.
+      exact H3.
+    Qed.
+
+    Lemma leb_iff_eq a b a' b' : (a <=! b <-> a' <=! b') -> leb N a b = leb N a' b'.
+    Proof.
+      unfold fle. intros [H1 H2].
+      destruct (leb N a b) eqn:E1, (leb N a' b') eqn:E2; try reflexivity.
+      - specialize (H1 eq_refl). discriminate H1.
+      - specialize (H2 eq_refl). discriminate H2.
+    Qed.
+
+    (* x |-> (x + k) / d with d > 0 is strictly increasing *)
+    Lemma affine_le k d a b : 0 <=! d -> d <> 0 ->
+      ((a +! k) /! d <=! (b +! k) /! d <-> a <=! b).
+    Proof.
+      intros Hd Hd0. split; intros H.
+      - pose proof (mul_le_r _ _ d H Hd) as H1.
+        pose proof (of_add_le N OF _ _ (opp N k) H1) as H2.
+        replace ((a +! k) /! d *! d +! opp N k) with a in H2 by (field; exact Hd0).
+        replace ((b +! k) /! d *! d +! opp N k) with b in H2 by (field; exact Hd0).
+        exact H2.
+      - pose proof (of_add_le N OF _ _ k H) as H1.
+        pose proof (mul_le_r _ _ (finv N d) H1 (inv_nonneg N OF d Hd Hd0)) as H2.
+        replace ((a +! k) *! finv N d) with ((a +! k) /! d) in H2 by (field; exact Hd0).
+        replace ((b +! k) *! finv N d) with ((b +! k) /! d) in H2 by (field; exact Hd0).
+        exact H2.
+    Qed.
+
+    Lemma mcr_ltb z carrier : z <> 0%Z -> forall a b,
+      ltb N (mass_charge_ratio N a z carrier) (mass_charge_ratio N b z carrier) = ltb N a b.
+    Proof.
+      intros Hz a b. rewrite !(of_ltb_def N OF). f_equal.
+      unfold mass_charge_ratio. cbv zeta.
+      apply leb_iff_eq. apply affine_le.
+      - apply abs_nonneg.
+      - apply (abs_neq0 N OF). apply (ofZ_neq0 N OF). exact Hz.
+    Qed.
+
+    Lemma brain_charge : forall pv cv o z carrier,
+      z <> 0%Z ->
+      finish N pv cv o z carrier
+      = map (fun mp => (charged N (fst mp) z carrier, snd mp)) (finish N pv cv o 0 carrier).
+    Proof.
+      intros pv cv o z carrier Hz.
+      rewrite (finish_on_fst (fun m => mass_charge_ratio N m z carrier) pv cv o z carrier).
+      - apply map_ext. intros mp. unfold on_fst. rewrite (charged_nonzero _ _ _ Hz). reflexivity.
+      - apply mcr_ltb. exact Hz.
+      - intros m. apply charged_nonzero. exact Hz.
+    Qed.
+
+    Lemma neutral_inverts : forall m z carrier,
+      z <> 0%Z -> neutral_mass N (mass_charge_ratio N m z carrier) z carrier = m.
+    Proof.
+      intros m z carrier Hz. unfold neutral_mass, mass_charge_ratio. cbv zeta.
+      field. apply (abs_neq0 N OF). apply (ofZ_neq0 N OF). exact Hz.
+    Qed.
+
+  End WithField.
+
+  (* holds for every [Num]; the [OField] premise is only there to match the statement in C10 *)
+  Lemma charged_formula : OField N -> forall m z carrier,
+    z <> 0%Z -> charged N m z carrier = div N (add N m (mul N (of_Z N z) carrier)) (abs N (of_Z N z)).
+  Proof. intros _ m z carrier Hz. rewrite (charged_nonzero _ _ _ Hz). reflexivity. Qed.
+End ChargeProofs.
+
+Lemma C10_example :
+  OField NumQc /\ neutral_mass NumQc (mass_charge_ratio NumQc (Qc_of_Z 1000) (-3) (PROTON NumQc)) (-3) (PROTON NumQc) = Qc_of_Z 1000.
+Proof.
+  split; [exact NumQc_OField|].
+  apply (neutral_inverts NumQc NumQc_OField). discriminate.
+Qed.
+
+Print Assumptions poisson_charge. Print Assumptions convolution_charge. Print Assumptions charged_zero.
+Print Assumptions brain_charge. Print Assumptions neutral_inverts. Print Assumptions charged_formula.
+Print Assumptions C10_example.
